@@ -50,6 +50,17 @@ CHECKS = {
         design_ref='DESIGN.md 5 / C07',
         technique='Coq proof (composition of C05/C06 theorems, list induction, vm_compute over the regenerated registry) + correspondence + truthfulness oracle',
         note=NOTE_COMMON + ' Completeness of the regex search (no match => no declaration anywhere) is covered by correspondence only. D1 fixed by commit 6bd9347.'),
+    'C02': dict(
+        category='proof',
+        text='Coq theorems: for EVERY string / byte string the escaped form consists of printable characters only (so no newline, ESC, C0/C1, DEL, '
+             'format or separator character of the regenerated Unicode tables); a line built from clean parts is clean, hence one tag() call is one line; '
+             'priority letter table and its monotonicity; coloured line = uncoloured line with the two SGR strings around the tag name; and, over tables '
+             'regenerated from /repo on every run: no verbatim (safestr / safe_format template) call site is tainted, tool messages are printable ASCII, every '
+             'tag name used is registered. The call-site theorem is relative to the translator\'s whitelist of tool-generated expressions, which is validated '
+             'dynamically (hostile catalogs through the real checker and CLI, with and without a pseudo-terminal).',
+        design_ref='DESIGN.md 5 / C02',
+        technique='Coq proof (list induction; vm_compute over regenerated call-site/tag/Unicode tables) + python-ast translator + correspondence + hostile-catalog oracle',
+        note=NOTE_COMMON + ' The provenance whitelist in tools/gen/gen_callsites.py is trusted (and dynamically validated). D5 fixed by commit 2c86b46.'),
 }
 
 NA_REASON = 'check not built yet (work in progress; see DESIGN.md section 8 for build order)'
